@@ -59,7 +59,9 @@ PROPS = {
         "frame": ["kernels"],
         "explanation": "static ownership analysis of the real AST of every chunk-level kernel: each in-place write site (element store, "
                        "augmented assignment, out=, in-place method, np.copyto) targets storage that is freshly allocated on every "
-                       "path reaching it, so no task modifies a value it borrowed; schedule independence then follows from purity (B3, assumed)",
+                       "path reaching it, so no task modifies a value it borrowed; schedule independence then follows from purity (B3, assumed). Bounded additions: a "
+                       "source registered with a lock is only ever read while that lock is held (whatever rewrites moved into the read), and "
+                       "executing a random collection's graph twice gives the same numbers (tasks do not advance generators stored in the graph)",
         "assumptions": ["B3 a task graph of pure functions evaluates to the same values in every topological order (not machine-checked)",
                         "the catalogue of aliasing vs allocating NumPy operations in frame/analyses.py",
                         "declared frames / owned parameters / fresh callables listed in coverage.frame"],
@@ -68,8 +70,10 @@ PROPS = {
         "level": "other",
         "frame": ["inplace", "kernels"],
         "explanation": "frame of in-place operations: Array._expr is assigned only in __init__/_replace_expr/__setstate__, no expression "
-                       "mutates its operands, and the setitem kernel writes only into a fresh copy; the reversed-slice arithmetic of "
-                       "assignment is bounded",
+                       "mutates its operands, and the setitem kernel writes only into a fresh copy. Proved (L1, a fragment of the real "
+                       "setitem_array_expr): the block-local slice of a strided assignment key selects exactly the block's share of the "
+                       "selected positions, or the block is skipped exactly when it holds none. The reversed-slice recasting, keys that mix "
+                       "integers / lists / reversed slices on n-d arrays and multi-chunk dask values are bounded",
     },
     "C26": {
         "level": "other",
@@ -77,7 +81,10 @@ PROPS = {
         "explanation": "static import-effect analysis over every dask_array module: the statements executed at import time (module top "
                        "levels, class bodies, decorators, defaults), closed under the init-time import graph, never load dask_array._xarray, "
                        "never call _ensure_registered/list_chunkmanagers/register, use no dynamic import; _ensure_registered has the single "
-                       "caller dask_array.xarray.register; pyproject.toml declares no xarray entry point. Order-free, for all import orders.",
+                       "caller dask_array.xarray.register; pyproject.toml declares no xarray entry point. Order-free, for all import orders. "
+                       "The value clause (registered objects compute what NumPy-backed ones do) rests on the moving-window rewrite that "
+                       "exists only for xarray's rolling path: its guard and block plan are proved (L1, shared with C19) and rolling / "
+                       "cumulative samples are compared in fresh interpreters (bounded)",
     },
     "C02": {
         "level": "proof",
@@ -91,7 +98,8 @@ PROPS = {
     "C18": {
         "level": "exploration",
         "explanation": "reductions: bounded contracts against NumPy over chunkings, axes, keepdims and split_every; the block structure of the "
-                       "reduction tree (one layer, and the cascade reaching one block) is proved at rank 1 given the bounded-checked depth bound",
+                       "reduction tree (one layer at rank 1-3; the cascade reaching one block on every reduced axis at rank 1 and rank 2; the "
+                       "fan-in >= 2) is proved given the depth bound, which is validated on the real function",
     },
     "C19": {
         "level": "proof",
